@@ -4,8 +4,8 @@ package main
 
 import (
 	"fmt"
-	"os"
 	"go/types"
+	"os"
 	"sort"
 	"strconv"
 	"strings"
@@ -13,22 +13,22 @@ import (
 
 // Builder accumulates the SMT-LIB script of one function under verification.
 type Builder struct {
-	decls    []string // in order
-	asserts  []string
-	declared map[string]bool
-	strLits  map[string]string // literal -> const name
-	strOrder []string
-	typeIDs  map[string]int // concrete type string -> tag
-	typeOrd  []string
-	structDT map[string]bool
-	n        int
-	events   *EventTable
-	notes    map[string]bool // abstraction notes (unsupported constructs)
-	termMode int             // >0: define() returns the term itself (evaluation under a quantifier)
+	decls           []string // in order
+	asserts         []string
+	declared        map[string]bool
+	strLits         map[string]string // literal -> const name
+	strOrder        []string
+	typeIDs         map[string]int // concrete type string -> tag
+	typeOrd         []string
+	structDT        map[string]bool
+	n               int
+	events          *EventTable
+	notes           map[string]bool // abstraction notes (unsupported constructs)
+	termMode        int             // >0: define() returns the term itself (evaluation under a quantifier)
 	freshInTermMode int
-	defOf    map[string]int  // defined constant -> index of its defining assertion
-	symCache map[int][]string
-	NoSlice  bool
+	defOf           map[string]int // defined constant -> index of its defining assertion
+	symCache        map[int][]string
+	NoSlice         bool
 }
 
 func NewBuilder(ev *EventTable) *Builder {
@@ -241,9 +241,10 @@ const preamble = `(set-logic ALL)
 // The axioms of the string / boxing functions are instantiated on the ground terms of the query
 // (one round of syntactic triggering) instead of being asserted as quantified formulas, so that
 // quantifier-free functions yield quantifier-free queries (and solver models).
-//   strlen(s) >= 0;  strlen(s) = 0 => s = str_empty
-//   strlen(str_concat(a,b)) = strlen(a)+strlen(b)
-//   unbox_Str(box_Str(s)) = s;  unbox_Flt(box_Flt(s)) = s
+//
+//	strlen(s) >= 0;  strlen(s) = 0 => s = str_empty
+//	strlen(str_concat(a,b)) = strlen(a)+strlen(b)
+//	unbox_Str(box_Str(s)) = s;  unbox_Flt(box_Flt(s)) = s
 func groundInstances(text string, seen map[string]bool) []string {
 	var out []string
 	add := func(key, inst string) {
@@ -661,7 +662,9 @@ type EventTable struct {
 
 func NewEventTable() *EventTable {
 	e := &EventTable{args: map[string][]string{}}
-	e.Add("Send", []string{"Int", "Int"}) // built in: channel send (channel, value)
+	e.Add("Send", []string{"Int", "Int"})   // built in: channel send (channel, value)
+	e.Add("Called", []string{"Int", "Int"}) // built in (contracts with `callevents`): call of a listed callee (its number in the list, from 1; the chosen argument)
+	e.Add("Recv", []string{"Int", "Int"})   // built in (contracts with `chanevents`): value received in a select (channel, value)
 	return e
 }
 
